@@ -1178,11 +1178,15 @@ func ZZVerifC16() {
 		pprof.StartCPUProfile(fh)
 		go func() { time.Sleep(20 * time.Second); pprof.StopCPUProfile(); fh.Close() }()
 	}
+	budget := 105 * time.Second
 	if thorough {
-		r.SetDeadline(17 * time.Minute)
-	} else {
-		r.SetDeadline(105 * time.Second)
+		budget = 17 * time.Minute
 	}
+	if v, err := strconv.Atoi(os.Getenv("VERIF_C16_BUDGET_S")); err == nil && v > 0 {
+		budget = time.Duration(v) * time.Second // for machines shared with other jobs
+	}
+	r.SetDeadline(budget)
+	r.Extra("time_budget_s", int(budget/time.Second))
 
 	var projDir string
 	if !evid.IsWorker() {
